@@ -59,6 +59,14 @@ theorem handler_found_through_hierarchy {ρ : Type} (key : List Nat) (mro : List
     rw [List.flatten_cons, lookupKey_append, ih, List.findSome?_cons]
     cases lookupKey key c <;> simp
 
+/-- handlers bound on the INSTANCE (its own dictionary comes first in what `dir(self)` lists for a key) win over every class
+dictionary; and since the table is a function of the dictionaries as they are when the visitor is created, a visitor created after a
+handler was attached sees it - whatever other visitors of the same class were created before -/
+theorem instance_handler_wins {ρ : Type} (key : List Nat) (inst : List (List Nat × (Tree → ρ)))
+    (mro : List (List (List Nat × (Tree → ρ)))) (h : Tree → ρ) (hk : lookupKey key inst = some h) :
+    lookupKey key (inst :: mro).flatten = lookupKey key inst := by
+  rw [handler_found_through_hierarchy, List.findSome?_cons, hk]
+
 theorem normCp_idem (c : Nat) : normCp (normCp c) = normCp c := by
   unfold normCp
   by_cases h1 : c = 45
